@@ -1,7 +1,7 @@
 (* C18 property theorems: statements only, each closed by [exact]. *)
 From Boltons Require Import Lib.Prelude Spec.C18_Spec Model.C18_Model
   Proofs.C18_Bytes Proofs.C18_Mfr Proofs.C18_Utf8 Proofs.C18_StringRun Gen.C18_Gen Proofs.C18_Source
-  Check.C18_Check Proofs.C18_Transfer.
+  Check.C18_Check Proofs.C18_Transfer Proofs.C18_MfrConcat.
 Open Scope N_scope.
 
 (* SpooledBytesIO: for EVERY max_size and every history of the listed calls
@@ -50,8 +50,8 @@ Proof. eexists. vm_compute. split; reflexivity. Qed.
    \x85 U+2028 U+2029), or the history has no readline/readlines/next/list/
    iteration call.  For every max_size, every READ_CHUNK_SIZE >= 1 and every
    history of appending writes (characters < 0x200000, which covers all of
-   Unicode), read(n)/read(), readline, readlines, next, list, iteration, seeks
-   inside the data, tell, getvalue and len, the values returned and tell() after
+   Unicode), read(n)/read(), readline, readlines, next, list, iteration, seeks to
+   any position >= 0 (past the end of the data too), tell, getvalue and len, the values returned and tell() after
    every call are those of the reference text file io.StringIO, positions
    counting code points - the UTF-8 stream, the StreamReader's byte/character/
    line buffers and its look-ahead, the rollover and the re-reading seek are all
@@ -142,3 +142,20 @@ Theorem C18_transfer_mfr : forall contents ops obs,
   snd (fst (c18_verdict (CMfr contents ops obs))) = true.
 Proof. exact transfer_mfr. Qed.
 Print Assumptions C18_transfer_mfr.
+
+(* MultiFileReader in the property's own words: put together, what the reads
+   return is the beginning of the concatenation of the members' contents - every
+   element once, in order -, and all of it as soon as one read is unsized. *)
+Theorem C18_mfr_reads_prefix : forall contents ops r,
+  forallb is_read ops = true ->
+  mref_run (mkRF (concat contents) 0) ops = Some r ->
+  exists tail, out_data (mfr_run (mfr_init contents) ops) ++ tail = concat contents.
+Proof. exact mfr_reads_are_a_prefix. Qed.
+Print Assumptions C18_mfr_reads_prefix.
+
+Theorem C18_mfr_reads_everything_once : forall contents ops r,
+  forallb is_read ops = true -> existsb is_unsized ops = true ->
+  mref_run (mkRF (concat contents) 0) ops = Some r ->
+  out_data (mfr_run (mfr_init contents) ops) = concat contents.
+Proof. exact mfr_reads_everything_once. Qed.
+Print Assumptions C18_mfr_reads_everything_once.
